@@ -71,8 +71,10 @@ def shards(tier):
     out = []
     k = 0
     for shape in _shapes(tier):
-        for vk in "fib":
-            pats = _nan_patterns(shape) if vk == "f" else [()]
+        for vk in ("f", "i", "b", "f4"):
+            if vk == "f4" and tier == "quick" and (sum(shape) + len(shape)) % 3:
+                continue        # single precision: every third shape in the quick tier
+            pats = _nan_patterns(shape) if vk in ("f", "f4") else [()]
             for nan in pats:
                 out.append({"shape": list(shape), "vk": vk, "nan": list(nan), "k": k}); k += 1
     return out
@@ -166,6 +168,8 @@ def check(case):
     if isinstance(got, Raised):
         return bad("{}(axis={!r}, skipna={}) raised {}".format(f, axarg, case["skipna"], got), klass="unexpected-exception")
     rtol = 1e-12 if f in ("mean", "var", "std", "sum", "prod") else 0.0
+    if s["vk"] == "f4" and rtol:
+        rtol = 2e-6       # single precision data: the order of summation shows in the last bits
     keepshape = [ra.shape[i] for i in keep]
     redshape = [ra.shape[i] for i in red]
     nontrivial = ra.vals.size > 1
@@ -230,7 +234,7 @@ def _check_percentile(case, a, ra, p, before):
         gv = got.values[()] if isinstance(got, DimArray) else got
         members = [ra.vals[(k,)] for k in range(ra.shape[0])]
         e = np.percentile(np.array(members), q)
-        return ok("pct-scalar") if same_scalar(gv, e, 1e-12) else bad("percentile = {!r} expected {!r}".format(py(gv), py(e)))
+        return ok("pct-scalar") if same_scalar(gv, e, 2e-6 if case["a"]["vk"] == "f4" else 1e-12) else bad("percentile = {!r} expected {!r}".format(py(gv), py(e)))
     if not isinstance(got, DimArray) or list(got.dims) != exp_dims:
         return bad("percentile({!r}, axis={!r}): expected dims {}, got {}".format(q, case["axis"], exp_dims, common.describe(got)))
     w = common.wellformed(got)
@@ -253,7 +257,7 @@ def _check_percentile(case, a, ra, p, before):
         for qi, qq in enumerate(qs):
             e = np.percentile(np.array(members), qq)
             gv = got.values[((qi,) if off else ()) + tuple(kpos)]
-            if not same_scalar(gv, e, 1e-12):
+            if not same_scalar(gv, e, 2e-6 if case["a"]["vk"] == "f4" else 1e-12):
                 return bad("percentile({}) at {} = {!r} expected {!r}".format(qq, kpos, py(gv), py(e)))
     if common.freeze(dict(got.attrs)) != common.freeze(ra.attrs):
         return bad("percentile: attrs {} expected {} (metadata not carried)".format(dict(got.attrs), ra.attrs))
